@@ -71,14 +71,17 @@ def _socket_job(args):
         for case in range(ncases):
             nsig = rng.choice([3, 5, 8, 20, 40])
             use_fd = rng.random() < 0.5
-            msgs, tokens, fdmsg = [method_call(1, BUS, BUS_PATH, BUS, "Hello").marshal()], [], None
+            msgs, tokens, fdmsg, fdset = [method_call(1, BUS, BUS_PATH, BUS, "Hello").marshal()], [], None, []
+            many = use_fd and rng.random() < 0.5          # several descriptor-carrying messages, often one right after the other
             for k in range(nsig):
                 tok = ("t%d-%d-%d" % (seed % 1000, case, k)).encode()
                 pay = bytes(rng.getrandbits(8) for _ in range(rng.choice([0, 3, 40, 200, 300])))
-                if use_fd and fdmsg is None and rng.random() < 0.4:
+                if use_fd and (fdmsg is None or many) and rng.random() < (0.4 if not fdset or fdset[-1] != len(msgs) - 1 else 0.75):
                     m = signal_msg(k + 2, "/c11", "c.e", "S", "sayh", [tok, list(pay), 0], dest=R.unique, le=rng.random() < 0.8,
                                    extra_fields=[(9, ('b', 'u'), 1)])
-                    fdmsg = len(msgs)
+                    if fdmsg is None:
+                        fdmsg = len(msgs)
+                    fdset.append(len(msgs))
                 else:
                     m = signal_msg(k + 2, "/c11", "c.e", "S", "say", [tok, list(pay)], dest=R.unique, le=rng.random() < 0.8)
                 msgs.append(m.marshal()); tokens.append(tok)
@@ -87,23 +90,35 @@ def _socket_job(args):
             pre = b"BEGIN\r\n" + msgs[0] if fdmsg is not None else b""
             stream = (b"" if fdmsg is not None else b"BEGIN\r\n") + b"".join(msgs[1:] if fdmsg is not None else msgs)
             if fdmsg is not None:
-                msgs = msgs[1:]; fdmsg -= 1
+                msgs = msgs[1:]; fdmsg -= 1; fdset = [x - 1 for x in fdset]
             n = len(stream)
             starts = [0 if pre else 7]
             for b in msgs:
                 starts.append(starts[-1] + len(b))
-            kind = rng.choice(["one", "after-begin", "fd-header", "random", "blocks", "begin-plus-tail"])
+            kind = rng.choice(["one", "after-begin", "fd-header", "random", "blocks", "begin-plus-tail"] + (["fd-split", "fd-split"] if fdmsg is not None else []))
             if kind == "one": cuts = []
             elif kind == "after-begin": cuts = [7]
             elif kind == "fd-header" and fdmsg is not None:
                 cuts = [starts[fdmsg] + rng.randint(1, 16)] + ([starts[fdmsg]] if rng.random() < 0.5 else [])
+            elif kind == "fd-split":
+                # one cut somewhere inside a descriptor-carrying message; what follows it (often another such message) arrives in
+                # one piece with its tail, after the daemon has had time to read the head
+                w = rng.choice(fdset)
+                inner = starts[w] + rng.randint(1, len(msgs[w]) - 1)
+                cuts = [inner]
             elif kind == "blocks":
                 sz = rng.choice([1, 2, 7, 16, 17, 100, 2048, 2049]); lo = rng.randint(0, max(0, n - 300))
                 cuts = list(range(lo + sz, min(n, lo + 300), sz)) if sz < 100 else list(range(sz, n, sz))
             elif kind == "begin-plus-tail": cuts = [(0 if pre else 7) + rng.randint(1, min(2041, n - 8))] if n > 9 else []
             else: cuts = sorted(rng.sample(range(1, n), min(n - 1, rng.randint(1, 6))))
+            # descriptors travel with the first byte of the message that announces them, in a sendmsg of its own: while the loader
+            # holds descriptors of an unfinished message it reads exactly that message's remaining bytes with a plain read(), and
+            # the kernel discards descriptors attached to bytes read that way
+            if len(fdset) > 1:
+                cuts += [starts[w] for w in fdset]
             cuts = sorted(set(c for c in cuts if 0 < c < n))
-            pause = rng.choice([0.0, 0.004, 0.004])
+            pause = rng.choice([0.0, 0.004, 0.004]) if kind != "fd-split" else 0.03
+            pause_at = None if kind != "fd-split" else inner       # (only the head of the split message is given time to be read alone)
             S = bus.Client(d, fd_passing=use_fd, begin=False)
             fdfiles = []
             try:
@@ -116,11 +131,12 @@ def _socket_job(args):
                 for c in cuts + [n]:
                     chunk = stream[pos:c]
                     fds = []
-                    if fdmsg is not None and pos <= starts[fdmsg] < c:
-                        f = open(os.path.join(d.dir, "c11-fd"), "w+"); fdfiles.append(f); fds = [f.fileno()]
+                    for w in fdset:
+                        if pos <= starts[w] < c:
+                            f = open(os.path.join(d.dir, "c11-fd"), "w+"); fdfiles.append(f); fds.append(f.fileno())
                     S.send_raw(chunk, fds)
                     pos = c
-                    if pause: time.sleep(pause)
+                    if pause and (pause_at is None or c == pause_at): time.sleep(pause)
                 # the sender's stream has been processed once the bus answers it (or drops it)
                 S.send(method_call(9000, None, "/", "org.freedesktop.DBus.Peer", "Ping"))
                 got_s = S.recv_until(lambda m: m.mtype in (2, 3) and m.get(5) == 9000, 10.0)
@@ -134,9 +150,9 @@ def _socket_job(args):
                     except OSError: pass
                 R.fds = []
                 out.append({"kind": kind, "cuts": cuts[:12], "all_cuts": cuts, "pre": pre.hex(), "fd_at": starts[fdmsg] if fdmsg is not None else None,
-                            "ncuts": len(cuts), "bytes": n, "pause": pause, "want": [t.decode() for t in tokens],
+                            "ncuts": len(cuts), "bytes": n, "pause": pause, "pause_at": pause_at, "want": [t.decode() for t in tokens],
                             "got": [t.decode() if isinstance(t, bytes) else str(t) for t in seen], "dropped": dropped,
-                            "fds_want": 1 if fdmsg is not None else 0, "fds_got": nfd, "stream": stream.hex(), "receiver": R.unique})
+                            "fds_want": len(fdset), "fds_got": nfd, "fd_starts": [starts[w] for w in fdset], "stream": stream.hex(), "receiver": R.unique})
             finally:
                 S.close()
                 for f in fdfiles: f.close()
@@ -242,11 +258,13 @@ def replay_socket(case):
             S.send_raw(bytes.fromhex(case["pre"])); S.recv_until(lambda m: m.mtype in (2, 3) and m.get(5) == 1, 10.0)
         stream, pos = bytes.fromhex(case["stream"]), 0
         for c in case["all_cuts"] + [len(stream)]:
-            fds = []
-            if case["fd_at"] is not None and pos <= case["fd_at"] < c:
-                f = open(os.path.join(d.dir, "c11-fd"), "w+"); fds = [f.fileno()]
+            fds, keep = [], []
+            for st in case.get("fd_starts") or ([case["fd_at"]] if case["fd_at"] is not None else []):
+                if pos <= st < c:
+                    f = open(os.path.join(d.dir, "c11-fd"), "w+"); keep.append(f); fds.append(f.fileno())
             S.send_raw(stream[pos:c], fds); pos = c
-            time.sleep(case["pause"])
+            if case.get("pause_at") is None or c == case["pause_at"]:
+                time.sleep(case["pause"])
         S.send(method_call(9000, None, "/", "org.freedesktop.DBus.Peer", "Ping"))
         got_s = S.recv_until(lambda m: m.mtype in (2, 3) and m.get(5) == 9000, 10.0)
         R.send(method_call(9001, None, "/", "org.freedesktop.DBus.Peer", "Ping"))
